@@ -268,6 +268,10 @@ theorem step_ok (cfg : Cfg) (st : St) (e : Event) : ∃ r, step cfg st e = .ok r
     by_cases hgt : (List.contains t '>' || List.contains d '>') = true
     · exact ⟨_, by simp only [step, hgt, ↓reduceIte]; rfl⟩
     · exact ⟨_, by simp only [step, hgt, Bool.false_eq_true, ↓reduceIte]; rfl⟩
+  | doctype n p s =>
+    by_cases hgt : dtHasGt n p s = true
+    · exact ⟨_, by simp only [step, hgt, ↓reduceIte]; rfl⟩
+    · exact ⟨_, by simp only [step, hgt, Bool.false_eq_true, ↓reduceIte]; rfl⟩
   | _ => exact ⟨_, rfl⟩
 
 theorem sanitizeFrom_ok (cfg : Cfg) (st : St) (s : Stream) : ∃ o, sanitizeFrom cfg st s = .ok o := by
